@@ -487,7 +487,7 @@ def md8(F, R):
     R.require(n >= 4, fn, "fileinfo-literals", "expected the four FileInfo literals (create, read-only, append, truncate), found %d" % n, fn.loc(0))
 
 
-@rule("IO1", ["C01"], floor=4,
+@rule("IO1", ["C01", "C02"], floor=6,
       doc="embedded-io adapters forward to the same primitives: Read::read -> File::read, Write::write -> File::write then Ok(buf.len()), flush -> File::flush, Seek::seek maps Start/End/Current to seek_from_start / seek_from_end(-offset) / seek_from_current and returns the new offset; errors are propagated")
 def io1(F, R):
     def impl(trait, meth):
@@ -500,6 +500,35 @@ def io1(F, R):
             continue
         calls = [callee_of(t) or "" for b, t in f.calls()]
         R.require(any(path_matches(c, target) for c in calls), f, "%s::%s" % (trait, meth), "%s::%s must forward to %s (calls: %s)" % (trait, meth, target, [c.split("::")[-1] for c in calls]), f.loc(0))
+    # Write::write reports exactly what it handed to File::write: the inherent write takes the caller's whole slice
+    # (it stores all of it or fails), and the count returned is that slice's length - a smaller count makes write_all
+    # send the tail again, a larger one drops data
+    f = impl("Write", "write")
+    if f is not None:
+        ws = [(b, t) for b, t in f.calls() if path_matches(callee_of(t) or "", "File::write")]
+        okw = len(ws) == 1 and strip_refs(f.term_of_operand(ws[0][1]["args"][1], ws[0][0]))[:2] == ("arg", 2)
+        for (b, i, v) in ok_returns(f):
+            v = strip_refs(v)
+            if v[:2] == ("c", 0):
+                # the empty-buffer shortcut: only under buf.is_empty()
+                okw = okw and guarded(f, b, lambda g: g.kind == "bool" and g.truth is True and g.term[0] == "call" and g.term[1] and g.term[1].endswith("is_empty") and strip_refs(g.term[2][0])[:2] == ("arg", 2))[0]
+            else:
+                whole = v[0] == "call" and v[1] and v[1].endswith("slice::len") and strip_refs(v[2][0])[:2] == ("arg", 2)
+                okw = okw and whole and bool(ws) and guarded(f, b, g_try_ok("File::write"))[0]
+        R.require(okw, f, "Write::write:count", "Write::write must pass the caller's whole buffer to File::write and return Ok(buf.len()) after it succeeded (Ok(0) only for an empty buffer)", f.loc(0))
+    f = impl("Read", "read")
+    if f is not None:
+        rs = [(b, t) for b, t in f.calls() if path_matches(callee_of(t) or "", "File::read")]
+        okr = len(rs) == 1 and strip_refs(f.term_of_operand(rs[0][1]["args"][1], rs[0][0]))[:2] == ("arg", 2)
+        for d in f.defs().get(0, []):
+            if d[0] == "assign":
+                v = strip_refs(f.term_of_rvalue(d[3], d[1]))
+                # the only literal result is Ok(0) for an empty buffer
+                okr = okr and v[0] == "agg" and v[2] and v[2].endswith("Result::Ok") and strip_refs(v[3][0])[:2] == ("c", 0) and \
+                    guarded(f, d[1], lambda g: g.kind == "bool" and g.truth is True and g.term[0] == "call" and g.term[1] and g.term[1].endswith("is_empty") and strip_refs(g.term[2][0])[:2] == ("arg", 2))[0]
+            elif d[0] == "call":
+                okr = okr and path_matches(callee_of(d[2]) or "", "File::read")
+        R.require(okr, f, "Read::read:count", "Read::read must hand the caller's whole buffer to File::read and return its result unchanged (Ok(0) only for an empty buffer)", f.loc(0))
     f = impl("Seek", "seek")
     if f is None:
         R.bad(None, "Seek::seek", "Seek impl for File not found", kind="anchor-missing")
